@@ -116,6 +116,33 @@ def random_histories(ty, n, count, length, rng):
     return reqs
 
 
+def big_histories(ty, n, count, length, rng):
+    """Histories over n distinguishable elements that START with large sets and then mostly add a few elements at a time
+    (duplicates of present elements, elements beyond the current maximum, runs in increasing order): sets stay above the
+    sizes where an implementation might switch algorithm."""
+    reqs = []
+    for i in range(count):
+        low = n - 8       # the eight greatest elements are absent at first, so that "beyond the current maximum" really occurs
+        ops = [{"w": w, "op": "from_iter", "args": rng.sample(range(low), rng.randint(33, low)) + [rng.randrange(low) for _ in range(5)]} for w in "ab"]
+        for _ in range(length):
+            w = rng.choice("ab")
+            r = rng.random()
+            if r < 0.35:
+                ops.append({"w": w, "op": "insert", "args": [rng.randrange(n)]})
+            elif r < 0.9:
+                k = rng.randint(1, 5)
+                base = rng.randrange(n)
+                hi = rng.randrange(low, n)
+                args = rng.choice([[rng.randrange(n) for _ in range(k)], [base] * k, sorted(rng.randrange(n) for _ in range(k)),
+                                   [min(n - 1, base + j) for j in range(k)], [n - 1 - j for j in range(k)][::-1],
+                                   [hi] * max(2, k), sorted(rng.randrange(low, n) for _ in range(max(2, k))), [hi, rng.randrange(low), hi]])
+                ops.append({"w": w, "op": "extend", "args": args})
+            else:
+                ops.append({"w": w, "op": "from_iter", "args": rng.sample(range(low), rng.randint(33, low))})
+        reqs.append({"id": i, "ty": ty, "n": n, "ops": ops})
+    return reqs
+
+
 def trace_validate(ty, n, reqs, wd, run):
     order = order_of(ty, n)
     of = os.path.join(wd, "torder_%s.json" % ty)
@@ -183,6 +210,11 @@ def check(prop, tier, seed):
     for ty in TYPES:
         reqs = random_histories(ty, 16, 12 if tier == "quick" else 60, 200 if tier == "quick" else 1000, rng)
         trace_validate(ty, 16, reqs, wd, run)
+        # one-dimension scale: 44 / 90 distinguishable elements, sets of 36+ elements extended a few elements at a time
+        if ty != "item":      # the harness has 16 distinguishable StateItem values only
+            nbig = 44 if tier == "quick" else 90      # the specification's sorting is cubic in the set size: ~0.2 s / 1 s per step
+            reqs = big_histories(ty, nbig, 2 if tier == "quick" else 12, 40 if tier == "quick" else 150, rng)
+            trace_validate(ty, nbig, reqs, wd, run)
     apalache(run, wd)
     run.notes["states_replayed"] = nstates
     run.rule = ("distinct transitions (element type, source state (raw_a, raw_b), operation, arguments) of the exhaustively explored "
